@@ -128,8 +128,10 @@ impl RawConn {
     async fn send(&mut self, f: &RawFrame) -> Result<(), String> {
         tokio::time::timeout(WATCHDOG, self.ws.send(WsMsg::Binary(f.to_vec()))).await.map_err(|_| "send-timeout".to_string())?.map_err(|e| format!("send: {e}"))
     }
-    /// Read binary messages until a non-notify frame with `id` arrives. Returns the frames before it and it.
-    async fn recv_until(&mut self, id: u64) -> Result<(Vec<RawFrame>, RawFrame), String> {
+    /// Read binary messages until a frame with a clear notify flag arrives: at most one request is ever
+    /// outstanding on these connections, so that frame is the answer to it (the caller checks its id).
+    /// Returns the frames before it and it.
+    async fn recv_until(&mut self, _id: u64) -> Result<(Vec<RawFrame>, RawFrame), String> {
         let deadline = Instant::now() + WATCHDOG;
         let mut others = Vec::new();
         loop {
@@ -145,7 +147,7 @@ impl RawConn {
                     self.sizes.push(b.len());
                     match RawFrame::parse_prefix(&b) {
                         Some((f, n)) if n == b.len() => {
-                            if f.h.id == id && f.h.notify == 0 {
+                            if f.h.notify == 0 {
                                 return Ok((others, f));
                             }
                             others.push(f);
@@ -158,6 +160,21 @@ impl RawConn {
             }
         }
     }
+}
+
+/// On the notify paths a frame with a clear notify flag and another id is not the answer to our request
+/// (it is a notification that was turned into something else): record it and keep waiting.
+async fn recv_answer(conn: &mut RawConn, id: u64) -> Result<(Vec<RawFrame>, RawFrame), String> {
+    let mut all = Vec::new();
+    for _ in 0..4 {
+        let (others, f) = conn.recv_until(id).await?;
+        all.extend(others);
+        if f.h.id == id {
+            return Ok((all, f));
+        }
+        all.push(f);
+    }
+    Err("four frames with a clear notify flag and a foreign id".into())
 }
 
 // ------------------------------------------------------------------------------------------------
@@ -362,10 +379,10 @@ async fn run_frame(w: &mut World, s: &Spec) -> CaseResult {
                 let rid = w.fresh();
                 let body = serde_json::to_vec(&json!({"m": s.qlen, "n": s.blen, "s": seed})).unwrap();
                 w.srv.send(&RawFrame::request(rid, false, 1, route.as_bytes(), 2, &body)).await?;
-                let (others, r) = w.srv.recv_until(rid).await?;
+                let (others, r) = recv_answer(&mut w.srv, rid).await?;
                 delivered = others;
-                if r.h.ec != 0 || r.body != b"\"pushed\"" {
-                    return Err(format!("push handler answered ec {} body {}", r.h.ec, String::from_utf8_lossy(&r.body)));
+                if r.h.id != rid || r.h.ec != 0 || r.body != b"\"pushed\"" {
+                    return Err(format!("push request {} answered id {} ec {} body {}", rid, r.h.id, r.h.ec, String::from_utf8_lossy(&r.body[..r.body.len().min(60)])));
                 }
             }
             "bcast" => {
@@ -391,10 +408,10 @@ async fn run_frame(w: &mut World, s: &Spec) -> CaseResult {
         let conn = if conn_is_proxy { &mut w.proxy } else { &mut w.srv };
         let r: Result<(), String> = async {
             conn.send(&RawFrame::request(pid, false, 1, b"/ping", 2, b"null")).await?;
-            let (others, pong) = conn.recv_until(pid).await?;
+            let (others, pong) = if is_notify { recv_answer(conn, pid).await? } else { conn.recv_until(pid).await? };
             delivered.extend(others);
-            if pong.h.ec != 0 || pong.body != b"\"pong\"" {
-                return Err(format!("follow-up request answered ec {}", pong.h.ec));
+            if pong.h.id != pid || pong.h.ec != 0 || pong.body != b"\"pong\"" {
+                return Err(format!("follow-up request {} answered with id {} ec {}", pid, pong.h.id, pong.h.ec));
             }
             Ok(())
         }
@@ -457,6 +474,9 @@ async fn run_frame(w: &mut World, s: &Spec) -> CaseResult {
             if is_notify {
                 if delivered.iter().any(|f| f.h.notify != 0) {
                     fail(&mut fails, "notify_not_dropped", format!("{}: an oversized notification ({} > {}) reached the peer", s.idx, intended, l));
+                }
+                if delivered.iter().any(|f| f.h.notify == 0) {
+                    fail(&mut fails, "notify_replaced", format!("{}: an oversized notification ({} > {}) was answered with a frame that is not a notification", s.idx, intended, l));
                 }
             } else if let Some(f) = &response {
                 if f.h.id != s.id {
@@ -669,6 +689,7 @@ fn main() {
     rt.block_on(async {
         let upstream = start_upstream().await;
         let mut worlds: HashMap<Option<usize>, World> = HashMap::new();
+        let mut broken_cases = 0u32;
         for s in &specs {
             if !worlds.contains_key(&s.limit) {
                 match make_world(s.limit, upstream).await {
@@ -701,6 +722,12 @@ fn main() {
             }
             if r.broken {
                 worlds.remove(&s.limit);
+                broken_cases += 1;
+                if broken_cases >= 3 {
+                    // every further case would spend a watchdog period on a property that has already failed
+                    out.count("limits.stopped_early_after_broken_connections");
+                    break;
+                }
             }
         }
     });
